@@ -311,7 +311,7 @@ func replay(lines []string) []caseOut {
 				env = getEnvRole2(env.n)
 			}
 			ctrl := kvOf(ws, "mode") == "ctrl"
-			c = newCase(env, spectypes.OperatorID(atou(kvOf(ws, "op"))), specqbft.Height(atou(kvOf(ws, "h"))), nil, ctrl, !ctrl, ctrl)
+			c = newCaseCfg(env, spectypes.OperatorID(atou(kvOf(ws, "op"))), specqbft.Height(atou(kvOf(ws, "h"))), nil, ctrl, !ctrl, ctrl, kvOf(ws, "cfg") == "prod")
 			if role2 {
 				c.role = 2
 				c.in.Ident(getEnv(env.n).identifier)
